@@ -11,6 +11,7 @@ from fractions import Fraction
 import numpy as np
 
 import gen_hydro_adm
+import gen_thermo
 import pyrx
 import vlib
 
@@ -270,16 +271,16 @@ def eos_models(ctx):
     from test_Hydrodynamics import TestModel2Step, TestModelBag
     from test_HydroTemplateModel import TestModelTemplate
     out = []
-    for Tn in ([0.5, 0.6, 0.7, 0.8, 0.9] if ctx.quick else
+    for Tn in ([0.5, 0.7, 0.8] if ctx.quick else
                [0.5, 0.55, 0.6, 0.65, 0.7, 0.75, 0.8, 0.85, 0.9, 0.95]):
         out.append(("2step Tn=%g" % Tn, dict(eos="2step", Tn=Tn),
                     lambda Tn=Tn: TestModel2Step(0.2, 0.1, 0.4, Tn)))
-    for psi, Tn in ([(0.9, 0.9), (0.8, 0.85), (0.5, 0.9)] if ctx.quick else
+    for psi, Tn in ([(0.9, 0.9), (0.5, 0.9)] if ctx.quick else
                     [(0.9, 0.9), (0.9, 0.8), (0.8, 0.85), (0.7, 0.9), (0.5, 0.9), (0.95, 0.95)]):
         out.append(("bag psi=%g Tn=%g" % (psi, Tn), dict(eos="bag", psi=psi, Tn=Tn),
                     lambda psi=psi, Tn=Tn: TestModelBag(psi, Tn)))
     rng = ctx.rng
-    for _ in range(ctx.n(3, 12)):
+    for _ in range(ctx.n(2, 12)):
         alN = round(rng.uniform(0.02, 0.25), 4)
         psiN = round(rng.uniform(0.6, 0.95), 4)
         cb2 = round(rng.uniform(0.26, 1 / 3), 4)
@@ -638,7 +639,7 @@ From WG Require Import Lib.NumpySem.
 From GenC06 Require Import HydroAdmGen.
 Local Open Scope R_scope.
 %(defs)s
-Definition e0 : env := {| Tnucl := %(Tn)s;
+Definition e0 : env := {| Tnucl := %(Tn)s; vJ := %(vJ)s;
   pHighT := pH; pLowT := pL;
   eHighT := fun T => T * dpH T - pH T; eLowT := fun T => T * dpL T - pL T;
   wHighT := fun T => T * dpH T; wLowT := fun T => T * dpL T;
@@ -649,7 +650,7 @@ Ltac ev :=
     vJ_of_tm vpDerivNum fst snd Tnucl pHighT pLowT eHighT eLowT wHighT wLowT dpLowT deLowT
     csqLowT csqHighT e0 pH dpH ddpH pL dpL ddpL];
   repeat match goal with |- context [Req_EM_T ?x ?y] =>
-    destruct (Req_EM_T x y) as [E|E];
+    let E := fresh "E" in destruct (Req_EM_T x y) as [E|E];
     [exfalso; revert E; first [apply Rlt_not_eq; interval | apply Rgt_not_eq; interval]|] end;
   cbv beta iota zeta delta [negb fst snd];
   repeat match goal with |- context [Rmin ?a ?b] =>
@@ -720,7 +721,7 @@ def certified_eval_files(ctx):
             goals.append("Goal Rabs (vJ_of_tm e0 %s - %s) <= %s.\nProof. ev. Qed." % (
                 R(Tm), R(vw), R(1e-6)))
             ctx.count("certified_eval", dict(case=case, vw=vw), bucket="detonation")
-        text = EVAL_HDR % dict(defs=eos_coq_defs(case), Tn=R(Tn)) + "\n".join(goals) + "\n"
+        text = EVAL_HDR % dict(defs=eos_coq_defs(case), Tn=R(Tn), vJ=R(h.vJ)) + "\n".join(goals) + "\n"
         files.append((case, ctx.write("Cases/EvalEos_%d.v" % k, text)))
     return files
 
@@ -748,12 +749,14 @@ def run(ctx):
     files = []
     for fname, gen, out in (("hydrodynamics.py", gen_hydro_adm.generate_hydro, "HydroAdmGen.v"),
                             ("hydrodynamicsTemplateModel.py", gen_hydro_adm.generate_template,
-                             "TemplAdmGen.v")):
+                             "TemplAdmGen.v"),
+                            ("thermodynamics.py", gen_thermo.generate, "Thermo.v")):
         src = vlib.read_src(fname)
         try:
             text, tr = gen(src)
             ctx.write(out, text, sources=dict(file="src/WallGo/" + fname, sha=vlib.sha(src),
-                                              spans=tr.spans, error_exits=tr.error_exits,
+                                              spans=tr.spans,
+                                              error_exits=getattr(tr, "error_exits", []),
                                               asserts=tr.asserts))
             files.append(out)
         except pyrx.TranslateError as e:
